@@ -196,6 +196,50 @@ def units(w):
     U.append(step_unit(w, "state 7: underscored decimal literal is normalised", 7, p_int(10, 7), ch=lambda c: z3.Or(*[c == ord(x) for x in TERMINATORS]), replay=replay_b))
     U.append(step_unit(w, "state 71: hex literal becomes the decimal numeral of its value", 71, p_int(16, 71), ch=lambda c: z3.Or(*[c == ord(x) for x in TERMINATORS]), replay=replay_b))
     U.append(step_unit(w, "state 72: binary literal becomes the decimal numeral of its value", 72, p_int(2, 72), ch=lambda c: z3.Or(*[c == ord(x) for x in TERMINATORS]), replay=replay_b))
+
+    # the text handed to the interpreter reaches the scanner unchanged: nothing between the caller and the scanner looks at
+    # layout (the step lemmas above are about the scanner; a text transformation in front of it would bypass them)
+    from .common import Vals, Stubs
+    V, S = Vals(w), Stubs(w)
+
+    def abs_parse(it_, a, k, n):
+        it_.ghost["seen"].append(list(a))
+        return S.node("script", V.int(it_, "result"))
+
+    def abs_scan(it_, a, k, n):
+        it_.ghost["seen"].append(a[0])
+        return a[0]
+
+    def s_interpret(it):
+        seen = it.ghost["seen"] = []
+        o = Obj(w.import_module("ckl.interpreter").ns["Interpreter"], {"environment": V.env(it, "session"), "base_environment": V.env(it, "base")})
+        o.fresh = False
+        src, fn = SStr(z3.String("script")), SStr(z3.String("filename"))
+        return [o, src, fn], {}, {"seen": seen, "src": src, "fn": fn}
+
+    def p_interpret(it, c, o):
+        it.check("post:the-parser-is-called-once", len(c["seen"]) == 1)
+        if len(c["seen"]) == 1:
+            a = c["seen"][0]
+            it.check("post:with-the-script-text-as-given", len(a) >= 1 and isinstance(a[0], SStr) and same_str(a[0], c["src"]))
+            it.check("post:and-the-file-name-as-given", len(a) >= 2 and isinstance(a[1], SStr) and same_str(a[1], c["fn"]))
+    U.append(Unit("interpreter.py::Interpreter.interpret", s_interpret, p_interpret, name="interpreter.py::Interpreter.interpret[script text reaches the parser unchanged]",
+                  abstractions={"parse_script": abs_parse}, replay=replay_b))
+
+    def s_pscript(it):
+        seen = it.ghost["seen"] = []
+        src, fn = SStr(z3.String("script")), SStr(z3.String("filename"))
+        return [src, fn], {}, {"seen": seen, "src": src}
+
+    def p_pscript(it, c, o):
+        it.check("post:one-scanner-is-run", len(c["seen"]) == 1)
+        if len(c["seen"]) == 1:
+            txt = c["seen"][0].fields.get("script")
+            # (the scanner appends one blank as an end marker; trailing blanks are covered by the whitespace step lemma)
+            it.check("post:over-the-text-as-given(plus the end-marker blank)", z3.Or(zs(txt) == zs(c["src"]), zs(txt) == z3.Concat(zs(c["src"]), z3.StringVal(" ")))
+                     if isinstance(txt, SStr) else False)
+    U.append(Unit("parser.py::parse_script", s_pscript, p_pscript, name="parser.py::parse_script[text reaches the scanner unchanged]", allowed=("CklSyntaxError",),
+                  abstractions={"Lexer.scan": abs_scan, "parse": lambda it_, a, k, n: S.node("script", V.int(it_, "result"))}, replay=replay_b))
     return U
 
 
@@ -226,10 +270,25 @@ PROGRAMS = [
     ["[", "x", "*", "2", "for", "x", "in", "[", "1", ",", "2", "]", "if", "x", "<>", "1", "]"],
     ["10", "-", "-", "3", "%", "2"],
     ["not", "TRUE", "or", "1", "==", "1", "and", "2", ">=", "1"],
+    # literals that span several source lines: their content is not layout
+    ["def", "s", "=", "'one\n    two\n\n  three'", ";", "[", "length", "(", "s", ")", ",", "s", "]"],
+    ["def", "s", "=", '"a\n\tb\n "', ";", "s", "+", "'|'"],
+    ["'x\n    y'", "==", "'x\n    y'", "and", "length", "(", "'  \n  '", ")", "==", "5"],
 ]
 SPELL = {"31": ["31", "0x1F", "0b11111", "3_1", "0x1f", "0b1_1111"], "2": ["2", "0x2", "0b10"], "!=": ["!=", "<>"], "<>": ["<>", "!="],
          "'yes'": ["'yes'", '"yes"'], "'no'": ["'no'", '"no"'], "'a\\'b'": ["'a\\'b'", '"a\'b"', "'a\\x27b'"], "'#x'": ["'#x'", '"#x"', "'\\x23x'"],
          "'boom'": ["'boom'", '"boom"'], "10": ["10", "0xA", "1_0", "0b1010"], "7": ["7", "0x7", "0b111"], "4": ["4", "0b100"], "3": ["3", "0x3"]}
+PAIRS = [("do 1; 2 end", "do 1; 2; end"), ("(1; 2)", "(1; 2;)"), ("(1)", "(1;)"), ("1; 2", "1; 2;"), ("def f() do return; end; f()", "def f() do return end; f()"),
+         ("def f() do return 5; end; f()", "def f() do return 5 end; f()"), ("def f() do do return catch all 1 end; 2 end; f()", "def f() do do return; catch all 1 end; 2 end; f()"),
+         ("def f() do do return finally 1 end; 2 end; f()", "def f() do do return; finally 1; end; 2; end; f();"),
+         ("def f(x) do if x then return else 5 end; [f(TRUE), f(FALSE)]", "def f(x) do if (x) then (return) else (5) end; [f((TRUE)), (f(FALSE))]"),
+         ("do error 1 catch 1 2 end", "do error 1; catch 1 2; end"), ("do 1 finally 2 end", "do 1; finally 2; end"),
+         ("for i in [1, 2] do i end", "for i in ([1, 2]) do (i); end"), ("while FALSE do 1 end", "while (FALSE) do 1; end"),
+         ("[x for x in [1, 2] if x > 1]", "[(x) for x in ([1, 2]) if (x > 1)]"), ("if 1 < 2 then 3 else 4", "if (1 < 2) then (3) else (4)"),
+         ("1 + 2 * 3", "1 + (2 * 3)"), ("1 + 2 * 3", "(1 + ((2) * 3))"), ("-3 + 1", "(-3) + 1"), ("-3", "-(3)"), ("-2.5", "-(2.5)"), ("-0.0", "-(0.0)"),
+         ("not TRUE", "not (TRUE)"), ("def a = 5; a", "def a = (5); (a)"), ("def f(x) x; f(1)", "def f(x) (x); f((1))"), ("[1, 2][0]", "([1, 2])[(0)]"),
+         ("<<<1 => 2>>>[1]", "<<<(1) => (2)>>>[1]"), ("'a' + 'b'", "('a') + ('b')"), ("1 is zero", "(1) is zero"), ("1 in [1]", "(1) in ([1])"),
+         ("error 'x'", "error ('x')"), ("1 / 0", "(1) / (0)"), ("1 !> string()", "(1) !> string()")]
 SEPS = [" ", "\n", "\t", "\r\n", " # c\n", "  ", "\n\n", " #\n"]
 
 
@@ -256,8 +315,12 @@ def bounded(tier, seed):
         base = " ".join(toks)
         I = interp.Interpreter(True, True)
         want = outcome(I, errors, base)
-        for _ in range(nrender):
-            out = []
+        for rno in range(nrender):
+            # layout styles: free mix of separators; or a uniformly indented script (every line starts with the same margin,
+            # as when a host program embeds the script in an indented multi-line string)
+            margin = rnd.choice(["    ", "\t", "  "]) if rno % 3 == 2 else None
+            seps = SEPS if margin is None else [" ", "\n" + margin, " # c\n" + margin, "  ", "\n" + margin + "\n" + margin]
+            out = [rnd.choice(["", " ", "\n", "\t", "# lead\n", "  \n  "]) if margin is None else margin]
             for i, tk in enumerate(toks):
                 tk2 = rnd.choice(SPELL.get(tk, [tk]))
                 # redundant parentheses around literals / identifiers in operand position
@@ -265,7 +328,7 @@ def bounded(tier, seed):
                         and (i + 1 >= len(toks) or toks[i + 1] not in ("(", "[")):
                     tk2 = "(" + tk2 + ")"
                 out.append(tk2)
-                out.append(rnd.choice(SEPS))
+                out.append(rnd.choice(seps))
             src = "".join(out)
             if rnd.random() < 0.5:
                 src += ";" + rnd.choice(["", "\n", " # end"])
@@ -274,6 +337,12 @@ def bounded(tier, seed):
             if got != want:
                 fails.append({"id": "bounded:re-rendering-changes-the-outcome", "input": repr(src), "observed": str(got), "expected": f"{want} (as for {base!r})"})
                 break
+    # optional trailing semicolons and redundant parentheses at every position where the grammar has them (fixed pairs)
+    for a, b in PAIRS:
+        ev += 1
+        wa, wb = outcome(interp.Interpreter(True, True), errors, a), outcome(interp.Interpreter(True, True), errors, b)
+        if wa != wb:
+            fails.append({"id": f"bounded:same-program-two-layouts[{a} | {b}]", "input": repr(b), "observed": str(wb), "expected": f"{wa} (as for {a!r})"})
     # token level: every pair token/terminator with and without a separating space
     toks = ["x", "ab1", "12", "1.5", "0x1F", "0b11", "3_000", "TRUE", "if", "+", "<", "<=", "<<", ">>", "=", "!", "/", "*", "-", "%"]
     for a in toks:
